@@ -53,9 +53,15 @@ Definition related (p r : path) : bool := is_prefix p r || is_prefix r p.
 (** [triggers_for_path]: the code pushes  this(p), children(p), then children of the parent,
     of the grand-parent, ... of the root (popping one segment per iteration), and finally
     reverses the vector: "notifying from the root down".  [Notify for Vec<ArcTrigger>] then
-    notifies front to back. *)
+    notifies front to back.  [parents_up]: the paths the loop visits. *)
+Definition parents_up (p : path) : list path :=
+  match p with
+  | [] => [[]]          (* `pop` on the empty path is a no-op: the root is visited (again) *)
+  | _ :: _ => rev (proper_prefixes p)
+  end.
+
 Definition triggers_for_path (p : path) : list trig :=
-  rev ([This p; Children p] ++ map Children (rev (proper_prefixes p))).
+  rev ([This p; Children p] ++ map Children (parents_up p)).
 
 (** [track_field] (the trait default after the repair 4f634fd, formerly Subfield's own):
     `this` of the full path, of the parent, ... of the root, then `this` and `children` of
@@ -66,7 +72,8 @@ Definition track_field (r : path) : list trig :=
 (** the kinds of write guard a store hands out *)
 Inductive wkind :=
 | WRoot    (* Store::write / ArcStore::write on the store itself *)
-| WField   (* Subfield, AtIndex, AtKeyed: WriteGuard(triggers_for_current_path, untracked parent) *)
+| WField   (* Subfield, AtIndex, AtKeyed, ArcField::from(store):
+              WriteGuard(triggers_for_current_path, untracked parent) *)
 | WKeyed.  (* KeyedSubfield::write: the same, then update_keys(), then notify() of the field *)
 
 (** The triggers notified when the guard is dropped, in order.
